@@ -67,11 +67,34 @@ def observe():
     return out
 
 
+def ctor_parameters():
+    """(positional-or-keyword, keyword-only) parameter names of `BaseModel.__init__`: `from_dataframe` calls
+    `cls(index, **{column label: values})`, so a column labelled like a positional parameter clashes with it
+    (TypeError) and one labelled like a keyword-only parameter is taken for that parameter."""
+    import inspect
+    import fsic
+    pos, kwo = [], []
+    for p in inspect.signature(fsic.BaseModel.__init__).parameters.values():
+        if p.kind in (p.POSITIONAL_ONLY, p.POSITIONAL_OR_KEYWORD):
+            pos.append(p.name)
+        elif p.kind == p.KEYWORD_ONLY:
+            kwo.append(p.name)
+    return pos, kwo
+
+
 def tables():
     def lstr(s):
         return '"' + s.replace('\\', '\\\\').replace('"', '\\"') + '"'
     obs = observe()
+    pos, kwo = ctor_parameters()
     return [
+        '/-- `BaseModel.__init__`: names of the positional(-or-keyword) parameters (a `from_dataframe` column labelled',
+        '    like one of them makes `cls(index, **columns)` raise TypeError). -/',
+        'def modelCtorPositional : List String := [' + ', '.join(lstr(x) for x in pos) + ']',
+        '/-- `BaseModel.__init__`: names of the keyword-only parameters (a column labelled like one of them is taken for',
+        '    that parameter instead of becoming an initial value). -/',
+        'def modelCtorKeywordOnly : List String := [' + ', '.join(lstr(x) for x in kwo) + ']',
+    ] + [
         '/-- pandas (installed version) on a column built from a list of dicts, read back through `iterrows`:',
         '    (probe, what the entry comes back as).  `*_missing` = an entry that was `None`; `*_present` = an entry that',
         '    was a str / an int; `mixed` = the column holds both kinds, `all`/`full` = only one kind. -/',
